@@ -2,7 +2,8 @@
    decidable specifications, inside Coq (vm_compute). *)
 From Coq Require Import List QArith ZArith Bool Arith Qround Qabs.
 From LV Require Import Model.Domain Model.Decode.
-From LV Require Model.EndpointTail.   (* with_task: _form_domain_with_task_dimension *)
+From LV Require Model.EndpointTail.   (* with_task: _form_domain_with_task_dimension; gp_tail: the multitask tail of the GP endpoint *)
+From LV Require Model.TaskTail.       (* the rows of the multitask tail before the task column is split off; the task-cost clause, decidable *)
 Import ListNotations.
 Open Scope Q_scope.
 
@@ -89,7 +90,12 @@ Inductive case :=
 | CLsBack (d : domain) (l : list Q) (out : list (list Q))
 | CTask (costs options out : list Q)
 | CNbrInt (d : domain) (x : row) (out : list row)
-| CNbrCat (d : domain) (xs out : list row).
+| CNbrCat (d : domain) (xs out : list row)
+(* GpNextPointsCategorical.convert_one_hot_points_to_distinct_categorical_points on a multitask request (_convert_one_hot_points_for_multitask):
+   proposals xs (relaxed rows with their task coordinate), the linear acquisition function x |-> coef . x, the relaxed history rows with
+   their task column, every draw scripted (categories of the two decodes, the per-component columns of the replacement draws);
+   pts / costs = what the code returned *)
+| CTaskTail (d : domain) (opts coef : list Q) (xs hist_oh : list row) (o : EndpointTail.gporc) (pts : list point) (costs : list Q).
 
 Definition check (c : case) : bool :=
   match c with
@@ -142,4 +148,14 @@ Definition check (c : case) : bool :=
   (* the order in which the lattice is listed is not part of the property: compared as multisets *)
   | CNbrInt d x out => rows_mseqb (neighboring_int_points d x) out
   | CNbrCat d xs out => rows_mseqb (neighboring_cat_points d xs) out
+  (* the code's answer is the model's (EndpointTail.gp_tail), and the clause of C09_task_tail_costs_snapped evaluated on the code's own
+     costs: each is a nearest option of the raw task coordinate of the row it is returned with (kept proposal or replacement) *)
+  | CTaskTail d opts coef xs hist_oh o pts costs =>
+      match TaskTail.task_tail_rows d opts (dot coef) xs hist_oh o, EndpointTail.gp_tail d opts false (dot coef) xs [] hist_oh o with
+      | Some out, Some r =>
+          rows_eqb (EndpointTail.r_points r) pts && rows_eqb (map (@removelast Q) out) pts &&
+          match EndpointTail.r_costs r with Some cs => peqb cs costs | None => false end &&
+          TaskTail.task_costs_okb opts out costs
+      | _, _ => false
+      end
   end.
